@@ -38,7 +38,7 @@ MANIFEST = {
 
 HERE = os.path.abspath(__file__)
 MP = refmp.build(b'BND', [(refmp.cd('t'), b'v%d'), (refmp.cd('f', 'n.bin', 'text/plain'), b'data%d')], epilogue=b'\r\n')[0]
-KINDS = ['getq', 'form', 'upload', 'raise', 'crash', '404', 'gen', 'wild']
+KINDS = ['getq', 'form', 'upload', 'raise', 'crash', '404', 'gen', 'wild', 'chunked', 'badform']
 
 
 def src_prefix():
@@ -109,6 +109,19 @@ def make_app(om, obs):
         ident = app.request.headers.get('X-Id')
         snap('p1', ident)
         return f'wild:{name}:{page}'
+    def chunked():
+        ident = app.request.headers.get('X-Id')
+        snap('p1', ident)
+        data = app.request.body.read()
+        snap('p2', ident)
+        return b'chunked:' + data
+
+    def badform():
+        ident = app.request.headers.get('X-Id')
+        snap('p1', ident)
+        return repr(sorted(app.request.forms.items()))
+    app.route('/chunked', 'POST', chunked)
+    app.route('/badform', 'POST', badform)
     app.route('/q', 'GET', getq)
     app.route('/form', 'POST', form)
     app.route('/upload', 'POST', upload)
@@ -136,6 +149,17 @@ def environ_for(kind, ident):
         return wsgi.environ('GET', '/nothing/' + ident, headers=h)
     if kind == 'gen':
         return wsgi.environ('GET', '/gen', qs='g=' + ident, headers=h)
+    if kind == 'chunked':
+        # chunk sizes with two hex digits (0x1a, 0x10) and a body that differs per request
+        p1 = (ident * 26).encode()[:26]
+        p2 = (ident * 16).encode()[:16]
+        raw = b'1a\r\n' + p1 + b'\r\n10;ext=' + ident.encode() + b'\r\n' + p2 + b'\r\n0\r\n\r\n'
+        return wsgi.environ('POST', '/chunked', body=raw, chunked=True, headers=h)
+    if kind == 'badform':
+        # a multipart form whose field header is malformed in a request-specific way; the client asks for JSON errors
+        h2 = dict(h, Accept='application/json')
+        body = b'--BND\r\nContent-Disposition form-data name=private-field-of-' + ident.encode() + b'\r\n\r\nv\r\n--BND--\r\n'
+        return wsgi.environ('POST', '/badform', body=body, ctype='multipart/form-data; boundary=BND', headers=h2)
     if kind == 'wild':
         return wsgi.environ('GET', '/u/alice%s/inbox' % ident if ident == '1' else '/u/admin/settingsx', headers=h)
     raise AssertionError(kind)
@@ -195,7 +219,8 @@ def judge(om, kinds, x):
     return None
 
 
-QUICK_PAIRS = [('getq', k) for k in KINDS] + [('raise', 'crash'), ('form', 'upload'), ('wild', 'wild'), ('404', 'crash'), ('gen', 'gen')]
+QUICK_PAIRS = [('getq', k) for k in KINDS] + [('raise', 'crash'), ('form', 'upload'), ('wild', 'wild'), ('404', 'crash'), ('gen', 'gen'),
+               ('chunked', 'chunked'), ('badform', 'badform')]
 
 
 def pairs():
@@ -248,7 +273,7 @@ def shards(tier, seed):
 
 
 def bounds(tier, seed):
-    return {'request_kinds': KINDS, 'pairs': len(pairs()), 'preemption_bound': '1 at line granularity for 13 pairs and one triple' if tier == 'quick' else '2 at function-entry granularity for all pairs, 2 at line granularity for three pairs, 1 at line granularity for all pairs and five triples, 1 at opcode granularity (plumbing files) for two pairs',
+    return {'request_kinds': KINDS, 'pairs': len(pairs()), 'preemption_bound': '1 at line granularity for 17 pairs and one triple' if tier == 'quick' else '2 at function-entry granularity for all pairs, 2 at line granularity for three pairs, 1 at line granularity for all pairs and five triples, 1 at opcode granularity (plumbing files) for two pairs',
             'granularity': 'source line' + ('' if tier == 'quick' else '; opcode events in common_helpers.py/response.py for two pairs'),
             'threads': '2' if tier == 'quick' else '2-3'}
 
